@@ -5,6 +5,7 @@ package ice
 // The same model carries the cycle-control oracles of C18 and the nil-candidate / ufrag oracles of C11.
 
 import (
+	"errors"
 	"context"
 	"encoding/json"
 	"fmt"
@@ -463,6 +464,8 @@ func checkC09(c *runCtx) {
 		csExplore(c, "gather-vs-restart", b+1, dl, nil)
 		csExplore(c, "gather-srflx-vs-restart", b, dl, nil)
 		csExplore(c, "gather-vs-gather-vs-restart", b, dl, nil)
+		csExplore(c, "gather-vs-close", b+1, dl, nil)
+		csExplore(c, "gather-srflx-vs-close", b, dl, nil)
 		csExplore(c, "addcandidate-after-cancel", 3, dl, func(zzmc.Failure) string { return "S6" })
 	}
 }
@@ -595,10 +598,90 @@ func gatherVsRestart(kind string) zzmc.Scenario {
 	}
 }
 
+// gatherVsClose: GatherCandidates on one goroutine, Close on another. Whatever the order, once Close has returned
+// nothing the agent opened is left open, the gatherer has wound down, and (under C10) every access to the agent's
+// fields kept to the lock discipline — the teardown included, which runs partly on the closer's goroutine.
+func gatherVsClose(kind string) zzmc.Scenario {
+	return zzmc.Scenario{
+		Name:     "gather-vs-close",
+		Focus:    []string{"taskloop.go"},
+		MaxSteps: 3000,
+		Setup: func(s *zzmc.Sched) func(string) (string, string) {
+			cfg := gatherCfg{Ifaces: gIfacesBasic, NetTypes: []string{"udp4"}, CandTypes: []string{kind}}
+			if kind == "srflx" {
+				cfg.URLs = []string{"stun:198.51.100.1:3478"}
+			}
+			raw, _ := json.Marshal(cfg)
+			gw := newGatherWorld(raw)
+			fail := ""
+			closeReturned := false
+			var gerr error
+			t0 := time.Now()
+			var closeTook time.Duration
+			_ = gw.a.OnCandidate(func(c Candidate) {
+				if closeReturned {
+					fail += "CANDIDATE-EVENT-AFTER-CLOSE-RETURNED "
+				}
+			})
+			if ownershipJudged() {
+				zzmc.OwnStart("*ice.Agent", "taskloop.go:")
+			}
+			s.Go("G", func() { gerr = gw.a.GatherCandidates() })
+			s.Go("C", func() {
+				if err := gw.a.Close(); err != nil {
+					fail += "CLOSE-FAILED "
+				}
+				closeReturned = true
+				closeTook = time.Since(t0)
+				gw.closed = true
+			})
+
+			return func(dead string) (string, string) {
+				synctest.Wait()
+				if reports, _ := zzmc.OwnStop(); len(reports) > 0 {
+					fail += strings.Join(reports, "; ") + " "
+				}
+				if dead == "" && !closeReturned {
+					fail += "CLOSE-DID-NOT-RETURN "
+				}
+				if gerr != nil && !errors.Is(gerr, ErrClosed) {
+					fail += "GATHER-FAILED-WITH-" + gerr.Error() + " "
+				}
+				if !closeReturned {
+					gw.Close()
+				}
+				// strict: nothing may outlive Close, not even until a timer fires (the clock has not moved)
+				if open := gw.openResources(-1); len(open) > 0 {
+					fail += "RESOURCES-LEFT-OPEN-AFTER-CLOSE:" + strings.Join(open, ",") + " "
+				}
+
+				// Close waits for the gatherer; a STUN query that was sent into the void ends with its own timeout at the
+				// latest (the helper that closes the socket early can lose its select when the gather context is already
+				// cancelled as well: a delay, not a hang). "Bounded" is that timeout.
+				if closeTook > gw.a.stunGatherTimeout {
+					fail += fmt.Sprintf("CLOSE-TOOK-%s-LONGER-THAN-THE-STUN-TIMEOUT ", closeTook)
+				}
+
+				return fmt.Sprintf("gather=%v close-took=%s", gerr, closeTook), fail
+			}
+		},
+	}
+}
+
 // gatherVsGather: two back-to-back GatherCandidates calls. Whether the second is refused or accepted (it is
 // accepted while the first cycle has not yet left New), one cycle's worth of results is published: every
 // address once, one end-of-gathering marker, nothing after it.
 func init() {
+	csScenarios["gather-vs-close"] = func() zzmc.Scenario { return gatherVsClose("host") }
+	csScenarios["gather-srflx-vs-close"] = func() zzmc.Scenario {
+		sc := gatherVsClose("srflx")
+		sc.Name = "gather-srflx-vs-close"
+		sc.TimeStep, sc.MaxAdv = time.Second, 30 // the clock may move when nothing else can (an unanswered STUN query ends by timeout)
+		// the helper goroutine of the srflx gatherer selects on two contexts that can both be done: the choice is the scheduler's
+		sc.Focus = []string{"taskloop.go", "gather.go"}
+
+		return sc
+	}
 	csScenarios["gather-vs-gather"] = func() zzmc.Scenario { return gatherVsGather(false) }
 	csScenarios["gather-vs-gather-vs-restart"] = func() zzmc.Scenario { return gatherVsGather(true) }
 }
